@@ -1579,7 +1579,19 @@ class Scene:
         # Set state
         old_position = self._airplanes[aircraft].p_bar
         old_orient = self._airplanes[aircraft].q
-        self._airplanes[aircraft].set_state(**state, v_wind=v_wind)
+        old_velocity = self._airplanes[aircraft].v
+        old_rates = self._airplanes[aircraft].w
+        old_rate_frame = self._airplanes[aircraft].angular_rate_frame
+        try:
+            self._airplanes[aircraft].set_state(**state, v_wind=v_wind)
+        except Exception:
+            # A state that is rejected leaves the aircraft in the state it had
+            self._airplanes[aircraft].p_bar = old_position
+            self._airplanes[aircraft].q = old_orient
+            self._airplanes[aircraft].v = old_velocity
+            self._airplanes[aircraft].w = old_rates
+            self._airplanes[aircraft].angular_rate_frame = old_rate_frame
+            raise
         aircraft_orient = self._airplanes[aircraft].q
 
         # If the position or orientation has changed at all, then we need to update the geometry
